@@ -38,6 +38,7 @@ func init() {
 			"worker address space limited to 8 GiB (RLIMIT_AS) so that runaway reservations abort the worker instead of the machine",
 		},
 		MinNontrivial:    300,
+		CaseCPUSeconds:   1200, // one case = all corruptions of one corpus member (10^3-10^4 inputs)
 		DeathIsViolation: true,
 		Variants:         []run.Variant{{Name: "thorough-asan", BuildFlags: []string{"-asan"}}},
 		RequiredMonitors: []string{"nopanic-wkb", "nopanic-twkb", "nopanic-wkt", "nopanic-geojson", "alloc-wkb", "alloc-twkb", "alloc-wkt", "alloc-geojson", "validated", "reencode"},
